@@ -172,6 +172,8 @@ JPrintPlain(A, origin, e) ==
     \cup Chk(e.jok => \A v \in Probes(Ends(A) \cup Ends(e.jval)) :
                           (RInB(e.jval, v) <=> RInB(A, v)) /\ (RSat(e.jval, v) <=> RSat(A, v)), "C13:json-denotation")
     \cup Chk((origin = "parse" /\ e.jok) => e.jeq, "C13:json-eq")
+    \* through serde_json::Value, through a reader, from JSON text with an escape: the same range as from_str
+    \cup Chk(e.jok => \A k \in Idx(e.jroutes) : e.jroutes[k].out = "ok" /\ e.jroutes[k].val = e.jval, "C13:json-other-routes")
 JPrint(A, origin, e) ==
   \* the `*` shape (both sides unbounded) only comes from Range::any(), outside the quantifier of C13
   \* beyond the listed properties: the exact Display text (pinned by the crate's ~70 parse tests)
@@ -228,6 +230,7 @@ JVBuilt(e) ==
   \cup Chk(e.print2 = e.print, "C12:fixed-point")
   \cup Chk(e.json = <<34>> \o e.print \o <<34>>, "C12:json-is-printed-string")
   \cup Chk(e.jback.out = "ok" /\ e.jback.val = e.val, "C12:json-roundtrip")
+  \cup Chk(\A k \in Idx(e.jroutes) : e.jroutes[k].out = "ok" /\ e.jroutes[k].val = e.val, "C12:json-roundtrip-other-routes")
 
 \* ------------------------------------------------------------------ C16
 JVDiff(e) ==
